@@ -30,8 +30,14 @@ func compileRegexp(pattern string) (*compiledRegexp, error) {
 // positive ASCII classes, which is all the engine accepts).
 func (m *Machine) byteMatch(inst *syntax.Inst, b *Term) (*Term, bool) {
 	switch inst.Op {
-	case syntax.InstRuneAny, syntax.InstRuneAnyNotNL:
-		return nil, false
+	case syntax.InstRuneAny:
+		// byte-level: exact when '.' stands under a repetition (every byte sequence of length
+		// >= 1 decodes to >= 1 runes, invalid bytes decode to U+FFFD which '.' matches)
+		m.IntrHits["regexp:any-rune-matched-bytewise"]++
+		return m.T.True, true
+	case syntax.InstRuneAnyNotNL:
+		m.IntrHits["regexp:any-rune-matched-bytewise"]++
+		return m.T.Not(m.T.Eq(b, m.T.Const(8, '\n'))), true
 	}
 	runes := inst.Rune
 	res := m.T.False
